@@ -545,21 +545,86 @@ Fixpoint assoc_stmt (n : string) (defs : list (string * sstmt)) : option sstmt :
   | (k, s) :: r => if String.eqb n k then Some s else assoc_stmt n r
   end.
 
-(* the statements the generated _evaluate runs, in its order: one per symbol that build_model_definition emits
-   (ENDOGENOUS with equation and code), taken from the statement of the script that defines that name *)
-Definition program_of_symbols (syms : list symbol) (stmts : list string) : option (list string * sprogram) :=
-  if existsb (fun s => type_eqb (stype s) TVerbatim) syms then None
-  else
-    let names := names_of syms in
-    match all_some (map (stmt_of_equation (row_of names)) stmts) with
-    | None => None
-    | Some defs =>
-      match all_some (map (fun s => match sname s with Some n => assoc_stmt n defs | None => None end)
-                          (filter emits syms)) with
-      | Some prog => Some (names, prog)
-      | None => None
+(* ---- one-line verbatim statements: their text IS Python code and enters the class unchanged.  The code of the subset
+   ( self._NAME[t] / [t+K] / [t-K], decimal literals, + - * / ** ( ) , np.exp np.log max min abs, comparisons, if / else /
+   and / or / not ) is read into the same tokens as a script statement; anything else — other names, a newline (a fenced
+   block), an index with blanks — is CBad: outside the subset, fail-closed. ---- *)
+Definition code_index (s : string) : option (Z * string) :=          (* [t]  [t+K]  [t-K] *)
+  match prefix_rest "[t" s with
+  | Some (String c r) =>
+    if Ascii.eqb c "]" then Some (0%Z, r)
+    else if Ascii.eqb c "+" || Ascii.eqb c "-" then
+      let '(ds, r2) := span_while is_digit r in
+      match ds, r2 with
+      | String _ _, String d r3 =>
+        if Ascii.eqb d "]" then Some (if Ascii.eqb c "-" then (- digits_Z 0 ds)%Z else digits_Z 0 ds, r3) else None
+      | _, _ => None
       end
-    end.
+    else None
+  | _ => None
+  end.
+Definition code_word (w : string) : ctok :=
+  if String.eqb w "np.exp" || String.eqb w "np.log" || String.eqb w "max" || String.eqb w "min" || String.eqb w "abs" then CFun w
+  else if String.eqb w "if" then CX XIf else if String.eqb w "else" then CX XElse
+  else if String.eqb w "and" then CX XAnd else if String.eqb w "or" then CX XOr else if String.eqb w "not" then CX XNot
+  else CBad.
+Fixpoint lex_code (fuel : nat) (s : string) : list ctok :=
+  match fuel with
+  | O => [CBad]
+  | S f =>
+    match s with
+    | "" => []
+    | String c r =>
+      if Ascii.eqb c nl then [CBad]
+      else if is_space c then lex_code f r
+      else if is_digit c || Ascii.eqb c "." then
+        let '(num, rest) := span_while (fun d => is_digit d || Ascii.eqb d ".") s in CNum num :: lex_code f rest
+      else if Ascii.eqb c "*" then
+        match r with
+        | String d r2 => if Ascii.eqb d "*" then CPow :: lex_code f r2 else CStar :: lex_code f r
+        | "" => [CStar]
+        end
+      else if is_opc c then
+        match r with
+        | String d r2 => if Ascii.eqb d "=" then op2 c :: lex_code f r2 else op1 c :: lex_code f r
+        | "" => [op1 c]
+        end
+      else if is_alpha_ c then
+        match prefix_rest "self._" s with
+        | Some r1 =>
+          let '(name, r2) := span_while is_idc r1 in
+          match code_index r2 with
+          | Some (k, r3) => CRead name k :: lex_code f r3
+          | None => [CBad]
+          end
+        | None => let '(w, r1) := span_while is_fnc s in code_word w :: lex_code f r1
+        end
+      else tok_of_char c :: lex_code f r
+    end
+  end.
+Definition stmt_of_code (row : string -> option nat) (code : string) : option (string * sstmt) :=
+  stmt_of_tokens row (lex_code (S (String.length code)) code).
+
+(* the statements the generated _evaluate runs, in its order: one per symbol that build_model_definition emits —
+   an ENDOGENOUS symbol: the statement of the script that defines that name; a VERBATIM symbol: its own code *)
+Definition program_of_symbols (syms : list symbol) (stmts : list string) : option (list string * sprogram) :=
+  let names := names_of syms in
+  match all_some (map (stmt_of_equation (row_of names))
+                      (filter (fun st => negb (head_is "`" st && last_is "`" st)) stmts)) with
+  | None => None
+  | Some defs =>
+    match all_some (map (fun s => match sname s with
+                                  | Some n => assoc_stmt n defs
+                                  | None => match scode s with
+                                            | Some c => match stmt_of_code (row_of names) c with Some (_, st) => Some st | None => None end
+                                            | None => None
+                                            end
+                                  end)
+                        (filter emits syms)) with
+    | Some prog => Some (names, prog)
+    | None => None
+    end
+  end.
 
 Definition program_of_script (script : string) : option (list string * sprogram) :=
   match parse_model_nocheck script, split_M script with
